@@ -114,6 +114,9 @@ func c14Cases() []c14Case {
 			{"coder wrapping plain", wrapCoder{c, errors.New("in")}},
 			{"coder wrapping Canceled", wrapCoder{c, context.Canceled}},
 			{"*Error", &jrpc2.Error{Code: c, Message: "wrapped", Data: json.RawMessage(`[1]`)}},
+			{"coder wrapping *Error(404)", wrapCoder{c, &jrpc2.Error{Code: 404, Message: "inner", Data: json.RawMessage(`{"in":1}`)}}},
+			{"Code.Err joined by %w%w with *Error(404)", fmt.Errorf("%w (cause: %w)", myCoder{c}, &jrpc2.Error{Code: 404, Message: "inner"})},
+			{"*Error(404) inside coder inside %w", fmt.Errorf("outer: %w", wrapCoder{c, fmt.Errorf("mid: %w", &jrpc2.Error{Code: 404, Message: "inner"})})},
 		}
 		for _, b := range bases {
 			if b.e == nil {
